@@ -8,8 +8,12 @@ import IpcHub.Model.DepackInst
 import IpcHub.Spec.Packetise
 import IpcHub.Lemmas.DepackRound265
 import IpcHub.Lemmas.DepackLoss265
+import IpcHub.Lemmas.DepackDemux
+import IpcHub.Lemmas.DepackPts
+import IpcHub.Lemmas.RtpPayload
+import IpcHub.Model.RtpPacketInst
 namespace IpcHub.Props.C06
-open IpcHub.Depack IpcHub.Packetise IpcHub.DepackRound IpcHub.DepackLoss
+open IpcHub.Depack IpcHub.Packetise IpcHub.DepackRound IpcHub.DepackLoss IpcHub.DepackDemux IpcHub.DepackPts
 
 /-- The source facts the theorems rest on, regenerated from /repo on every run: every guard
     (if / for / case condition) of the depacketizer functions in source order, the assignments
@@ -82,7 +86,7 @@ theorem c06_source_facts :
     IpcHub.Gen.aacIndexLength = 3 ∧
     IpcHub.Gen.relativeNtpBody = ["diff := int64(rtptime) - int64(sc.RTPTime)", "return int64(float64(diff) * sc.RTPTimeUnit)"] ∧
     IpcHub.Gen.payloadBody = ["if p.Channel == ChannelVideo || p.Channel == ChannelAudio { end := len(p.Data) if p.Padding && end > p.PayloadOffset { if n := int(p.Data[end-1]); n > 0 && n <= end-p.PayloadOffset { end -= n } } return p.Data[p.PayloadOffset:end] }", "return nil"] ∧
-    IpcHub.Gen.depackFactsUnknown = [] ∧
+    IpcHub.Gen.payloadStripsPadding = true ∧
     IpcHub.Gen.depackFactsUnknown = [] := by
   and_intros <;> rfl
 
@@ -215,17 +219,147 @@ example : legalAac [[1, 2, 3], [], [4]] = true ∧
     (aacStep genCfg 0 ⟨0, 4294966784, true, aacPayload [[1, 2, 3], [], [4]]⟩).1.map (·.ts) = [4294966784, 512, 1536] := by
   decide
 
-/-- C06, presentation times: every frame of the round trip carries the sender's RTP timestamp
-    of its unit and the depacketizer's clock base, so its PTS is `conv(ts − base) + ptsDelay`:
-    units of one RTP timestamp share one presentation time, and PTS differences are a function of
-    the RTP timestamps alone (the non-modular subtraction at the 2^32 wrap is the open finding
-    `rtp-timestamp-wrap`; `conv` is the exact-rational stand-in for the float64 product). -/
-theorem c06_presentation_times (rate : Nat) (base : UInt32) (u v : UInt32 × Bytes) :
-    (frameOf base u).pts genCfg rate = conv rate ((u.1.toNat : Int) - base.toNat) + 500000000 ∧
-    (u.1 = v.1 → (frameOf base u).pts genCfg rate = (frameOf base v).pts genCfg rate) := by
+/-- C06, presentation times.  Two units `u`, `v` of the round trip (frames `frameOf base ·`: the
+    sender's RTP timestamp, the depacketizer's clock base) with the clock base not after them and
+    no 2^32 wrap between them (`v` at most 2^31 − 1 ticks after `u`):
+    * equal RTP timestamps ⇒ equal presentation times;
+    * the presentation-time difference is the RTP-timestamp difference (the modular `tsDiff` of the
+      specification) converted at the clock rate, within the 1 ns of the truncating division;
+    * i.e. the oracle's predicate `ptsHolds` (tolerance 1 ns) holds of the pair.
+    FULL STATEMENT: for every pair of units, also across the 2^32 wrap and across an RTCP sender
+    report.  `_partial`: both are false of the code — open findings `rtp-timestamp-wrap`
+    (`c06_timestamp_wrap_witness`) and `sr-rebase` (`c06_sr_rebase_witness`, which can put the
+    base after the timestamps); `conv` is the exact-rational stand-in for the float64 product
+    (the harness checks the Go result is within 1 ns of it). -/
+theorem c06_presentation_times_partial (rate : Nat) (hrate : 0 < rate) (base : UInt32) (u v : UInt32 × Bytes)
+    (hb : base.toNat ≤ u.1.toNat) (huv : u.1.toNat ≤ v.1.toNat) (hd : v.1.toNat - u.1.toNat < 2147483648) :
+    let pu := (frameOf base u).pts genCfg rate
+    let pv := (frameOf base v).pts genCfg rate
+    (u.1 = v.1 → pu = pv) ∧
+    Int.tdiv (tsDiff v.1 u.1 * 1000000000) rate ≤ pv - pu ∧ pv - pu ≤ Int.tdiv (tsDiff v.1 u.1 * 1000000000) rate + 1 ∧
+    ptsHolds rate 1 [(u.1, pu), (v.1, pv)] = true := by
+  have h := pts_diff genCfg rate hrate base u v hb huv hd
+  refine ⟨?_, h.1, h.2, pts_pair_holds genCfg rate hrate base u v hb huv hd⟩
+  intro he; simp [Frame.pts, frameOf, he]
+
+/-- non-vacuity: 90 kHz, two units 3000 ticks apart: 33 333 333 ns (one third of a nanosecond truncated) -/
+example :
+    (0 : UInt32).toNat ≤ (9000 : UInt32).toNat ∧ (9000 : UInt32).toNat ≤ (12000 : UInt32).toNat ∧
+    (frameOf 0 (12000, [0x41])).pts genCfg 90000 - (frameOf 0 (9000, [0x41])).pts genCfg 90000 = 33333333 ∧
+    Int.tdiv (tsDiff 12000 9000 * 1000000000) 90000 = 33333333 := by
+  decide
+
+/-- C06 at the level of `Demuxer.process`, H.264 + AAC.  The demuxer pops the packets of the video
+    RTP stream (the sender's `items`, packetised as in the round trip) and of the audio RTP stream
+    (`auds`: sequence number, timestamp, marker, the AUs of one RFC 3640 packet) in ANY interleaving
+    `ins` — an audio packet may arrive between two fragments of a video unit.  From every alive
+    demuxer state whose video metadata is ready: the video frames handed on are exactly the
+    sender's NAL units and the audio frames exactly the AUs, each in its stream's order, AU i of
+    a packet stamped `ts + 1024·i`; the streams do not disturb each other.
+    FULL STATEMENT: also with RTCP packets in between and with filler units.  `_partial`: an RTCP
+    sender report re-bases the clock in mid-stream (open finding `sr-rebase`); filler data as in
+    the round trip. -/
+theorem c06_demux_roundtrip_h264_partial (spsOk : Bytes → Bool) (d : DemuxSt) (ins : List In) (items : List Item)
+    (seq0 : UInt16) (auds : List (UInt16 × UInt32 × Bool × List Bytes))
+    (hcodec : d.codec = .h264) (ha : d.alive = true) (haac : d.hasAac = true) (hr : d.v.ready = true)
+    (hn : noCtl ins = true)
+    (hv : vidOf ins = packets264 seq0 items) (hl : ∀ it ∈ items, legal264F it = true ∧ itemNoFiller it = true)
+    (hau : audOf ins = auds.map (fun a => ⟨a.1, a.2.1, a.2.2.1, aacPayload a.2.2.2⟩))
+    (hla : ∀ a ∈ auds, legalAac a.2.2.2 = true) :
+    let out := (demuxRun genCfg spsOk d ins).2
+    out.filter (fun f => !f.audio) = (units items).map (frameOf d.v.base) ∧
+    out.filter (fun f => f.audio)
+      = auds.flatMap (fun a => (aacUnits 1024 a.2.1 a.2.2.2).map (fun u => ⟨true, u.1, d.abase, u.2⟩)) := by
+  have hsafe : SafeCfg genCfg := by refine ⟨?_, ?_, ?_, ?_, ?_, ?_, ?_, ?_⟩ <;> decide
   refine ⟨?_, ?_⟩
-  · simp [Frame.pts, frameOf, show genCfg.ptsDelay = 500000000 from by decide]
-  · intro h; simp [Frame.pts, frameOf, h]
+  · rw [demuxRun_video genCfg hsafe spsOk ins d ha hn, hv, hcodec]
+    obtain ⟨st', h, _⟩ := h264_roundtrip genCfg c06_round_cfg spsOk items d.v seq0 hr hl
+    rw [h]
+  · rw [demuxRun_audio genCfg hsafe spsOk ins d ha haac hn, hau, List.flatMap_map]
+    apply flatMap_congr'
+    intro a hmem
+    rw [c06_aac_roundtrip d.abase a.1 a.2.1 a.2.2.1 a.2.2.2 (hla a hmem)]
+
+/-- the same for H.265 + AAC (every NAL type 0…47); `_partial` only for the RTCP exclusion -/
+theorem c06_demux_roundtrip_h265_partial (spsOk : Bytes → Bool) (d : DemuxSt) (ins : List In) (items : List Item)
+    (seq0 : UInt16) (auds : List (UInt16 × UInt32 × Bool × List Bytes))
+    (hcodec : d.codec = .h265) (ha : d.alive = true) (haac : d.hasAac = true) (hr : d.v.ready = true)
+    (hn : noCtl ins = true)
+    (hv : vidOf ins = packets265 seq0 items) (hl : ∀ it ∈ items, legal265 it = true)
+    (hau : audOf ins = auds.map (fun a => ⟨a.1, a.2.1, a.2.2.1, aacPayload a.2.2.2⟩))
+    (hla : ∀ a ∈ auds, legalAac a.2.2.2 = true) :
+    let out := (demuxRun genCfg spsOk d ins).2
+    out.filter (fun f => !f.audio) = (units items).map (frameOf d.v.base) ∧
+    out.filter (fun f => f.audio)
+      = auds.flatMap (fun a => (aacUnits 1024 a.2.1 a.2.2.2).map (fun u => ⟨true, u.1, d.abase, u.2⟩)) := by
+  have hsafe : SafeCfg genCfg := by refine ⟨?_, ?_, ?_, ?_, ?_, ?_, ?_, ?_⟩ <;> decide
+  refine ⟨?_, ?_⟩
+  · rw [demuxRun_video genCfg hsafe spsOk ins d ha hn, hv, hcodec]
+    obtain ⟨st', h, _⟩ := h265_roundtrip genCfg c06_round_cfg spsOk items d.v seq0 hr hl
+    rw [h]
+  · rw [demuxRun_audio genCfg hsafe spsOk ins d ha haac hn, hau, List.flatMap_map]
+    apply flatMap_congr'
+    intro a hmem
+    rw [c06_aac_roundtrip d.abase a.1 a.2.1 a.2.2.1 a.2.2.2 (hla a hmem)]
+
+/-- non-vacuity: a unit in two FU-A fragments with an AAC packet (two AUs) arriving between the
+    fragments, then a second AAC packet: the hypotheses hold and the demuxer hands on the video
+    unit once and the three AUs -/
+example :
+    let items : List Item := [.frag 9000 true [0x65, 1, 2, 3] [1]]
+    let ps := packets264 65535 items
+    let a1 : Pkt := ⟨7, 4294966784, true, aacPayload [[1, 2], [3]]⟩
+    let a2 : Pkt := ⟨8, 1536, true, aacPayload [[4]]⟩
+    let ins : List In := [.video ps[0]!, .audio a1, .video ps[1]!, .audio a2]
+    noCtl ins = true ∧ vidOf ins = ps ∧ audOf ins = [a1, a2] ∧
+    (demuxRun genCfg (fun _ => true) { codec := .h264, hasAac := true, v := { ready := true } } ins).2.map (fun f => (f.audio, f.ts, f.payload))
+      = [(true, 4294966784, [1, 2]), (true, 512, [3]), (false, 9000, [0x65, 1, 2, 3]), (true, 1536, [4])] := by
+  decide
+
+/-- C06, from the wire to the depacketizer: for EVERY RTP data packet a sender may emit (RFC 3550
+    §5.1 — any marker / payload type / sequence number / timestamp / SSRC, 0…15 CSRCs, an optional
+    header extension of any whole number of words with a generic profile, ANY payload including
+    none at all, 0…255 padding octets the last of which counts them), `ReadPacket`'s header parser
+    accepts the packet, keeps the marker bit, and `Packet.Payload()` — what every depacketizer
+    starts from — is exactly the sender's payload: CSRC list, extension and padding removed.  A
+    padding-only packet (pacing / probing / keep-alive) yields the EMPTY payload, for which
+    `Depacketize` hands on nothing (`c06_empty_payload_no_frame`): no unit is invented.
+    (The RFC 8285 profiles 0xBEDE / 0x100x, whose element structure the third-party parser walks,
+    are exercised by the harness only.) -/
+theorem c06_rtp_payload_extraction (p : IpcHub.RtpEncode.Send) (hl : IpcHub.RtpEncode.legal p = true) :
+    ∃ h, IpcHub.RtpPacket.unmarshal (IpcHub.RtpEncode.encode p) = .ok h ∧ h.marker = p.marker ∧
+      IpcHub.RtpPacket.payload IpcHub.RtpPacket.genPayloadCfg h (IpcHub.RtpEncode.encode p) = p.payload :=
+  IpcHub.RtpPayload.payload_encode _ (by decide) p hl
+
+/-- non-vacuity: a padding-only packet behind 2 CSRCs and a one-word extension -/
+example :
+    let p : IpcHub.RtpEncode.Send := { marker := true, pt := 96, seqHi := 0xff, seqLo := 0xff, ts := (0, 0, 0x23, 0x28), ssrc := (1, 2, 3, 4), csrc := [(9, 9, 9, 1), (9, 9, 9, 2)], ext := some (0x12, 0x34, [1, 2, 3, 4]), payload := [], pad := 4 }
+    IpcHub.RtpEncode.legal p = true ∧ (IpcHub.RtpEncode.encode p).length = 32 ∧
+    (IpcHub.RtpEncode.encode p).drop 28 = [0, 0, 0, 4] := by
+  decide
+
+/-- an empty payload (padding-only packet, bare header) makes no depacketizer hand on anything, in
+    any state -/
+theorem c06_empty_payload_no_frame (spsOk : Bytes → Bool) (st : VSt) (base : UInt32) (s : UInt16) (ts : UInt32) (m : Bool) :
+    (h264Step genCfg spsOk st ⟨s, ts, m, []⟩).out = [] ∧ (h265Step genCfg spsOk st ⟨s, ts, m, []⟩).out = [] ∧
+    (aacStep genCfg base ⟨s, ts, m, []⟩).1 = [] := by
+  refine ⟨?_, ?_, ?_⟩
+  · simp [h264Step, show genCfg.h264Min = 1 from by decide]
+  · simp [h265Step, show genCfg.h265Min = 2 from by decide]
+  · simp [aacStep]
+
+/-- FIXED (191bb64) / seeded class: without the padding strip — or with a strip that refuses to
+    remove ALL of the area after the header — the padding octets of a padding-only packet reach the
+    depacketizer as payload and `00 00 00 04` is handed on as a NAL unit of type 0: an invented unit.
+    Replayed: corpus/C06/rtp-padding.case -/
+theorem c06_padding_only_witness :
+    let p : IpcHub.RtpEncode.Send := { marker := false, pt := 96, seqHi := 0, seqLo := 7, ts := (0, 0, 0x23, 0x28), ssrc := (1, 2, 3, 4), csrc := [], ext := none, payload := [], pad := 4 }
+    let h : IpcHub.RtpPacket.Hdr := { padding := true, ext := false, marker := false, pt := 96, seq := 7, ts := 9000, payloadOffset := 12 }
+    (IpcHub.RtpPacket.unmarshal (IpcHub.RtpEncode.encode p)).toOption = some h ∧
+    IpcHub.RtpPacket.payload { IpcHub.RtpPacket.genPayloadCfg with stripsPadding := false } h (IpcHub.RtpEncode.encode p) = [0, 0, 0, 4] ∧
+    IpcHub.RtpPacket.payload IpcHub.RtpPacket.genPayloadCfg h (IpcHub.RtpEncode.encode p) = [] ∧
+    (h264Step genCfg (fun _ => true) { ready := true } ⟨7, 9000, false, [0, 0, 0, 4]⟩).out = [⟨false, 9000, 0, [0, 0, 0, 4]⟩] := by
+  decide
 
 private def pk (s : UInt16) (ts : UInt32) (b : Bytes) : Pkt := ⟨s, ts, false, b⟩
 
